@@ -1,5 +1,7 @@
 import PugModel.Tpl.Compile
 import PugProofs.C01.EvalScalar
+import PugProofs.C01.EndToEnd
+import PugProofs.C06.Mixed
 import PugModel.Pug.Spec
 /-!
 # C04 — escaped output never lets data-supplied markup through
@@ -138,7 +140,78 @@ theorem C04_code_escaped_scalar (ρ : SEnv) (e : SExpr) (s : String) (h : sEval 
   | S s => exact C04_print_escaped s st
   | str s => exact print_str_escaped s st
 
+open Pug.JS Pug.Props.C01S Pug.Driver in
+/-- **C04 (end to end, through the whole model of LoadTemplates + Render).** Page data: ANY JSON object whose values are strings,
+numbers or booleans (lower-initial keys, none called `global`). Template: the escaped buffered code `= e` for ANY expression of
+the scalar fragment built from those values by concatenation, conditionals, `||` / `&&` defaults, comparisons - any nesting -
+whose JavaScript value is a string `s`. Then conversion of the data, the transpiler, text merging, trim markers, the template
+parser and the executor together print exactly `escape s` - and by `C04_escape_safe` that text contains no `<`, `>`, `"`, `'`. -/
+theorem C04_render_escaped_end_to_end (o : Std.TreeMap.Raw String Lean.Json) (svs : SEnv) (hd : ScalarData o svs)
+    (hg : ∀ kv ∈ svs, kv.1 ≠ "global") (e : SExpr) (s : String) (inl : Bool)
+    (hw : WF { funcs := engineFuncs ++ [], parserFuncs := engineFuncs ++ [] ++ builtinNames } e) (ht : TopEsc e)
+    (hdepth : e.depth < 50000) (h : sEval svs e = some (.str s)) :
+    renderModel [.codeBuf e.toExpr true inl] (.obj o) [] false = okOut (pugHtmlEscape s) := by
+  have hc := compileDoc_buffered { funcs := engineFuncs ++ [], parserFuncs := engineFuncs ++ [] ++ builtinNames } e inl hw ht hdepth
+  have hag := agree_initState o svs hd hg
+  have hout := (initState_scalars o svs hd).2
+  have hwalk := C04_code_escaped_scalar svs e s h (initState (.obj o)) hag { defs := [] } 99999999 (by omega)
+  have hrun : walkList 100000000 { defs := [] } [TNode.print (tr e) true] (initState (.obj o)) =
+      .ok ((), { initState (.obj o) with out := (initState (.obj o)).out ++ pugHtmlEscape s }) := by
+    show walkList (99999999 + 1) _ _ _ = _
+    rw [walkList]
+    simp only [bind, StateT.bind, hwalk, Except.bind]
+    show walkList (99999998 + 1) _ [] _ = _
+    simp [walkList, pure, StateT.pure, Except.pure]
+  simp only [renderModel, hc, StateT.run, hrun, hout, String.empty_append]
+
+open Pug.JS Pug.Props.C01S Pug.Props.MixedS Pug.Driver in
+/-- **C04 + C06 (escaped code in EVERY position of a static tree, end to end).** Page data: any JSON object with string / number /
+boolean values. Document: any tree of text (braces included), doctype and attribute-less tags, nested to any depth `d`, with
+escaped buffered code `= e` - `e` any well-formed scalar expression with a string value - at ANY place in it. `MSerL` relates such
+a document to its reference serialisation `out`: tags and text as written, `escape (value of e)` at each code node. Then the
+whole model of LoadTemplates + Render - data conversion, transpiler, text merging, trim markers, template parser, executor -
+prints exactly `out`: no position in the tree lets a value through unescaped, and the structure around it is untouched. -/
+theorem C04_escaped_in_every_position (o : Std.TreeMap.Raw String Lean.Json) (svs : SEnv) (hd : ScalarData o svs)
+    (hg : ∀ kv ∈ svs, kv.1 ≠ "global") (d : Nat) (hdep : 2 * d < nodeFuel) (doc : List Node) (out : String)
+    (h : MSerL svs { funcs := engineFuncs ++ [], parserFuncs := engineFuncs ++ [] ++ builtinNames } d doc out) :
+    ∃ frags, compileNodes { funcs := engineFuncs ++ [], parserFuncs := engineFuncs ++ [] ++ builtinNames } doc = .ok frags ∧
+      (frags.length + 100003 < 100000000 → renderModel doc (.obj o) [] false = okOut out) := by
+  obtain ⟨frags, h1, h2, h3⟩ := compileDoc_mixed
+    { funcs := engineFuncs ++ [], parserFuncs := engineFuncs ++ [] ++ builtinNames } rfl d hdep doc out h
+  refine ⟨frags, h1, fun hlen => ?_⟩
+  have hm := merge_fos frags.length frags out (Nat.le_refl _) h2
+  have hl := Pug.Props.C06S.merge_length frags.length frags (Nat.le_refl _)
+  have hag := agree_initState o svs hd hg
+  have hout := (initState_scalars o svs hd).2
+  have hw := walk_fos { defs := [] } (mergeTexts frags) out hm (initState (.obj o)) hag 100000000 (by omega)
+  simp only [renderModel, h3, StateT.run, hw, hout, String.empty_append]
+
 /-! non-vacuity -/
 example : escapeWith htmlEscape "<b a=\"1\">&'".toList = "&lt;b a=&#34;1&#34;&gt;&amp;&#39;".toList := by decide
+
+section EndToEndNonVacuity
+open Pug.JS Pug.Props.C01S Pug.Driver Lean
+private def o1 : Std.TreeMap.Raw String Json := ((∅ : Std.TreeMap.Raw String Json).insert "a" (.str "<b>")).insert "b" (.bool true)
+private def svs1 : SEnv := [("a", .str "<b>"), ("b", .bool true)]
+private def e1 : SExpr := .bin .add (.var "a") (.cond (.var "b") (.var "a") (.var "b"))
+example : ScalarData o1 svs1 := ⟨by decide, by decide⟩
+example : ∀ kv ∈ svs1, kv.1 ≠ "global" := by decide
+example : WF { funcs := engineFuncs ++ [], parserFuncs := engineFuncs ++ [] ++ builtinNames } e1 := by
+  simp [WF, e1]; decide
+example : TopEsc e1 := trivial
+example : sEval svs1 e1 = some (.str "<b><b>") := by decide
+open Pug.Props.MixedS in
+/-- non-vacuity of `C04_escaped_in_every_position`: `p` containing the text `a{b` and the code `= a + (b ? a : b)` over
+{a: "<b>", b: true} -/
+example : MSerL svs1 { funcs := engineFuncs ++ [], parserFuncs := engineFuncs ++ [] ++ builtinNames } 2
+    [.tag "p" false [] [] [.text "a{b", .codeBuf e1.toExpr true true]]
+    (cat ["<" ++ "p" ++ ">" ++ cat ["a{b", pugHtmlEscape "<b><b>"] ++ "</" ++ "p" ++ ">"]) := by
+  refine ⟨[_], ⟨?_, trivial⟩, rfl⟩
+  simp only [MSer]
+  refine ⟨trivial, trivial, by decide, ["a{b", pugHtmlEscape "<b><b>"], ⟨rfl, ⟨e1, "<b><b>", rfl, rfl, ?_, trivial, by decide, by decide, rfl⟩, trivial⟩, ?_⟩
+  · simp [WF, e1]; decide
+  · have : ¬ "p" ∈ Tpl.voidTags := by decide
+    simp [this]
+end EndToEndNonVacuity
 
 end Pug.Props.C04
